@@ -7,11 +7,19 @@ function bodies closed and without initializers); `visible_names_unique`; the tw
 formats are injective (`renderB_injective`, `renderC_injective` for bases not ending in `_`), a
 call sequence on one counter dictionary mints pairwise distinct names (`fresh_injective`), names of
 child contexts with different prefixes never collide (`child_names_disjoint`, `root_child_disjoint`).
+Round 2 — Props/C03Rename.lean: `rename_preserves_scopes` / `renameM_preserves` (acceptance is preserved by
+any renaming that is injective per scope chain), the NameFixPass contract on the model `pickName`/`fixList`
+(`fixList_sound`, `fixList_keep`, `fixList_head`); Props/C03Calls.lean: `callsBound_sound` (no absent operand for
+a formal input that the callee reads, also for calls from inside function bodies), `acyclic_sound` /
+`no_self_call` (no recursion among model-local functions), `func_body_closed`.
 
 Tie (H): (a) the naming model is driven with the same random call sequences as the real
-`IRContext.fresh_name`, `IRBuilder.fresh_name` and `make_subgraph_context` (nested); (b) every
-export of the program × configuration generators is translated to a ModelTree and checked by the
-proven checker through the Lean driver.  That every program yields an accepted model is SAMPLED.
+`IRContext.fresh_name`, `IRBuilder.fresh_name` and `make_subgraph_context` (nested); (b) the NameFixPass model
+predicts the real `_run_name_fix_pass` on real IR models with forced collisions, which are then re-checked
+(harness/c03_namefix.py); (c) every export of the program × configuration generators — including a pairwise
+COVERING ARRAY construct × dim × opset × dp × layout × mode × names (harness/c03_cover.py) — is translated to a
+ModelTree and checked by the proven checkers through the Lean driver.  That every program yields an accepted
+model is SAMPLED (systematically: every pair of factor values occurs).
 Search / oracle: onnx.checker(full_check), strict shape inference, ORT session construction.
 """
 from __future__ import annotations
@@ -33,20 +41,24 @@ META = {
                  "the proven checker is run on real exports (program × configuration generators)",
     "level_text": "Kernel-checked: checkScopes_sound (accepted ⇒ WellScoped at every nesting depth, main graph "
                   "and function bodies), visible_names_unique, renderB/renderC_injective, fresh_injective, "
-                  "child_names_disjoint, root_child_disjoint. The naming model agrees with the real "
-                  "fresh_name/make_subgraph_context on generated call sequences.",
+                  "child_names_disjoint, root_child_disjoint; rename_preserves_scopes / renameM_preserves (per-scope "
+                  "injective renaming keeps acceptance), NameFixPass contract (fixList_sound/keep/head), "
+                  "callsBound_sound (absent operands), acyclic_sound / no_self_call, func_body_closed. The naming "
+                  "model agrees with the real fresh_name/make_subgraph_context on generated call sequences and the "
+                  "NameFixPass model predicts the real pass on models with forced collisions.",
     "level_note": "PARTIAL: the checker is proved, so no accepted model is ill-scoped; that EVERY program × "
                   "configuration yields an accepted, loadable model is SAMPLED (generated nested programs, "
-                  "named programs, plugin testcases × configs), not proved. Uniqueness in the final model "
-                  "rests on onnx_ir's NameFixPass (library code); explicit _outputs/name_hint names bypass the "
-                  "counters. Trusted: the ModelProto→ModelTree translator, Lean's interpreter for per-model runs, "
+                  "named programs, plugin testcases × configs, pairwise covering array of construct × "
+                  "configuration factors), not proved. Uniqueness in the final model rests on onnx_ir's NameFixPass "
+                  "(library code; its contract is modelled, proved on the model and tied by prediction); explicit "
+                  "_outputs/name_hint names bypass the counters. Trusted: the ModelProto→ModelTree translator, Lean's interpreter for per-model runs, "
                   "onnx.checker / ORT as oracles (ORT limitations are classified and reported, not hidden). Five genuine "
                   "defects of the unchanged tree (well-scoped but ill-typed / undefined operator / illegal attribute value "
                   "exports) are listed in known_findings.d/C03.json and exported on every run.",
     "design_ref": "DESIGN.md §3 C03",
 }
 
-MODS = ["J2O.Props.C03"]
+MODS = ["J2O.Props.C03", "J2O.Props.C03Rename", "J2O.Props.C03Calls", "J2O.Props.C03Acyclic"]
 
 BASES = ["v", "Add", "in", "out", "loop_body", "cond_then", "Constant", "const_val", "x", "x_", "a/",
          "", "q1", "a_1", "a_1_", "Reshape", "in_", "v_0", "scan", "é", "a b", "0", "_", "/",
@@ -189,6 +201,14 @@ def export_set(chk: Check, rng: common.Rng, thorough: bool):
         plan.append((d, progs.default_cfg()))
         for _ in range(1 if not thorough else 4):
             plan.append((d, progs.random_cfg(rng, d)))
+    # round 2: pairwise covering array construct × dim × opset × dp × layout × mode × names (harness/c03_cover.py)
+    import c03_cover
+    cover_plan, cover_info = c03_cover.plan(rng, arrays=1 if not thorough else 4)
+    if cover_info["uncovered_pairs"]:
+        raise RuntimeError(f"covering array construction left pairs uncovered: {cover_info}")
+    plan += cover_plan
+    chk.cover_rows = cover_info.pop("_rows")
+    chk.info("covering_array", cover_info)
     params = progs.plugin_params()
     if thorough:
         chosen = rng.shuffle(params)        # seeded order: a budget cut drops a different tail per seed
@@ -217,13 +237,21 @@ def run(chk: Check) -> None:
     chk.log(f"phase prove done at {round(t_ph - chk.t0, 1)} s")
     naming_bad = check_naming(chk, rng, thorough)
     chk.log(f"phase naming done at {round(time.time() - chk.t0, 1)} s")
+    import c03_namefix
+    namefix_bad = c03_namefix.check(chk, rng, thorough)
+    chk.log(f"phase namefix done at {round(time.time() - chk.t0, 1)} s")
+    naming_bad = naming_bad + namefix_bad
     if naming_bad:
-        chk.log(f"naming correspondence broken in {len(naming_bad)} sequences; searching the exports for a "
+        chk.log(f"naming / name-fix correspondence broken in {len(naming_bad)} cases; searching the exports for a "
                 "concrete ill-formed model")
 
     plan = export_set(chk, rng, thorough)
     t0 = time.time()
-    budget = 110 if not thorough else 1500
+    budget = 170 if not thorough else 1500
+    import c03_cover
+    cover_rows = getattr(chk, "cover_rows", {})
+    cover_seen: dict = {}
+    cover_refused: dict = {}
     errors: dict = {}
     limitations: dict = {}
     depth_hist: dict = {}
@@ -232,8 +260,13 @@ def run(chk: Check) -> None:
     for chunk in progs.export_in_chunks(plan, max_models=400, deadline=t0 + budget):
         done, lines = [], []
         for ex in chunk:
+            ckey = c03_cover.plan_key(ex.desc, ex.cfg) if ex.desc.get("kind") == "cover" else None
+            if ckey in cover_rows:
+                cover_seen[ckey] = ex.ok
             if not ex.ok:
                 errors[ex.error.split(":")[0]] = errors.get(ex.error.split(":")[0], 0) + 1
+                if ckey is not None:
+                    cover_refused[ex.desc["name"]] = ex.error[:80]
                 continue
             tree = modeltree.from_ir(ex.ir_model, with_vinfo=False) if ex.ir_model is not None \
                 else modeltree.from_proto(ex.proto, with_vinfo=False)
@@ -268,7 +301,12 @@ def run(chk: Check) -> None:
     chk.info("exports", {"planned": len(plan), "exported": n_done, "export_raised": errors,
                          "wall_s": round(time.time() - t0, 1)})
     chk.coverage["programs"] = n_done
-    if naming_bad and not chk.violations and not chk.known_hits:
+    ok_rows = [cover_rows[k] for k, ok in cover_seen.items() if ok]
+    chk.info("covering_array_outcome", {
+        "rows_run": len(cover_seen), "rows_exported": len(ok_rows), "rows_not_reached_budget": len(cover_rows) - len(cover_seen),
+        "pairs_not_covered_by_an_exported_row": len(c03_cover.uncovered_pairs(ok_rows)),
+        "refused_by_exporter_loudly": cover_refused})
+    if naming_bad and not chk.violations:      # (listed known findings are unrelated to naming)
         chk.violation({"correspondence": "fresh_name / make_subgraph_context vs the Lean naming model",
                        "disagreements": naming_bad[:10],
                        "note": "the real naming code left the proven model, but no exported model of this run "
@@ -284,8 +322,10 @@ def run(chk: Check) -> None:
         "IRContext, its builder and nested make_subgraph_context children; non-trivial = uses a child context. "
         "exports: fixed nested trees + random trees (depth<=3 quick, <=5 thorough) + named programs + plugin "
         "testcases (seeded sample quick, all thorough) × (opset 21..max, double precision, symbolic batch, "
-        "nchw flags, proto/ir/file); non-trivial = nested scope, function, or >3 nodes; distinct by "
-        "(program, config, size)")
+        "nchw flags, proto/ir/file) + a pairwise covering array over construct(13) × dim(3) × opset(3) × dp(2) × "
+        "layout(4) × mode(3) × input_names(2) (53-60 rows, seeded; 4 arrays in thorough); name-fix: real pass on 7 "
+        "(56 thorough) real IR models with forced collisions (4 patterns); non-trivial = nested scope, function, "
+        "or >3 nodes; distinct by (program, config, size)")
     chk.coverage["exhaustive"] = False
     chk.assumptions += [
         "ModelProto/ir.Model → ModelTree translation (harness/modeltree.py) is faithful",
@@ -306,6 +346,7 @@ def replay(path: str) -> int:
     print(json.dumps(rep, indent=1)[:3000])
     if "program" not in rep:
         return 0
+    import c03_cover  # noqa: F401  (registers the program kind "cover")
     ex = progs.export(rep["program"], rep.get("config"))
     if not ex.ok:
         print("export raises now:", ex.error)
